@@ -402,14 +402,25 @@ def run_check(pid, tier, replay=None):
             rc = json.load(open(replay))
             case = rc.get("case", rc)
             coq, impl = evaluate(P, scratch, asan_dir or impl_dir, [case], "replay", sanitize)
-            v = (getattr(P, "judge", None) or (lambda c, q, i: default_judge(P, c, q, i)))(case, coq[0], impl[0])
+            if isinstance(impl[0], dict) and impl[0].get("t") == "EscapedFromPsutil":
+                v = Verdict("violation", "an exception raised by the implementation escaped: %s" % (impl[0]["a"][0],))
+            else:
+                v = (getattr(P, "judge", None) or (lambda c, q, i: default_judge(P, c, q, i)))(case, coq[0], impl[0])
             print(json.dumps({"case": case, "coq": coq[0], "impl": impl[0], "verdict": v.kind, "detail": v.detail},
                              indent=1, sort_keys=True))
             return 0 if v.kind in ("ok", "skip") else 1
         # ---- known findings: replay the witnesses
         known, fixed = load_findings(pid)
         known_keys = {f["key"] for f in known}
-        judge = getattr(P, "judge", None) or (lambda c, q, i: default_judge(P, c, q, i))
+        _pjudge = getattr(P, "judge", None) or (lambda c, q, i: default_judge(P, c, q, i))
+
+        def judge(c, q, i):
+            # pv/worker.py safety net: an exception raised by the implementation escaped an unwrapped call of the runner
+            if isinstance(i, dict) and i.get("t") == "EscapedFromPsutil":
+                has_spec = isinstance(q, dict) and q.get("spec") is not None
+                return Verdict("violation" if has_spec else "corr",
+                               "an exception raised by the implementation escaped: %s\n%s" % (i["a"][0], i["a"][1][-600:]))
+            return _pjudge(c, q, i)
         fkey = getattr(P, "finding_key", lambda c, q: None)
         wit_cases = [f["witness"] for f in known if f.get("witness")]
         if wit_cases:
